@@ -12,13 +12,29 @@ def sh(cmd, cwd=wt, timeout=3600):
     p = subprocess.run(cmd, shell=True, cwd=cwd, env=env, stdout=subprocess.PIPE, stderr=subprocess.STDOUT, text=True, timeout=timeout)
     return p.returncode, p.stdout
 patch = f"{out}/change_{n}.diff"; demo = f"{out}/demo_{n}_test.go"; notes = open(f"{out}/notes_{n}.md").read()
-m = re.search(r"(pkg/[\w\-/\.]+?)/?[`'\"]?\s*\(file name|package directory[^`]*`(pkg/[^`]+)`", notes)
 demodir = None
-for cand in re.findall(r"`((?:\./)?pkg/[\w\-/\.]+)/?`", notes):
-    c = cand.lstrip('./').rstrip('/')
-    if os.path.isdir(f"{wt}/{c}") and not c.endswith('.go'):
+pkgclause = re.search(r"^package\s+(\w+)", open(demo).read(), re.M).group(1)
+cands = []
+for cand in re.findall(r"((?:\./)?(?:pkg|cmd)/[\w\-/\.]+)", notes):
+    c = cand.lstrip('./').rstrip('/.')
+    if c.endswith('.go'):
+        c = os.path.dirname(c)
+    if os.path.isdir(f"{wt}/{c}") and c not in cands:
+        cands.append(c)
+def pkgname(d):
+    for f in sorted(os.listdir(f"{wt}/{d}")):
+        if f.endswith('.go') and not f.endswith('_test.go'):
+            mm = re.search(r"^package\s+(\w+)", open(f"{wt}/{d}/{f}").read(), re.M)
+            if mm: return mm.group(1)
+    return None
+for c in cands:
+    if pkgname(c) in (pkgclause, pkgclause[:-5] if pkgclause.endswith('_test') else pkgclause):
         demodir = c; break
+assert demodir, "cannot determine the demo directory from the notes: " + str(cands)
 runre = re.search(r"-run\s+'?\"?([\w\^\$\|\(\)_\.]+)", notes).group(1)
+tf = re.findall(r"^func (Test\w+)\(", open(demo).read(), re.M)
+if tf and not any(re.search(runre, t) for t in tf):
+    runre = "|".join(tf)
 print("demo dir:", demodir, "run:", runre)
 sh("git checkout -q -- . ; git clean -fdq pkg cmd")
 rc, o = sh(f"git apply --check {patch}"); assert rc == 0, "patch does not apply: " + o
@@ -39,13 +55,13 @@ res["demo_without_change"] = o2.strip().splitlines()[-2:]
 os.remove(dest); sh("git checkout -q -- .")
 d = f"/verif/seeded/{newid}"; os.makedirs(d, exist_ok=True)
 shutil.copy(patch, d + "/patch.diff"); shutil.copy(demo, d + "/demo_test.go"); shutil.copy(f"{out}/notes_{n}.md", d + "/agent_notes.md")
-rc, o = sh(f"tools/try_seed_ov.sh seeded/{newid}/patch.diff {prop}", cwd="/verif", timeout=3600)
+rc, o = sh(f"CONTRACTS=/repo tools/try_seed_ov.sh seeded/{newid}/patch.diff {prop}", cwd="/verif", timeout=5400)
 ex = re.findall(r"exit=(\d+)", o); failed = re.findall(r"FAILED (\S+)", o) + re.findall(r"VIOLATION \S+ replay=\S*?([\w\.\(\)\*\$]+/[\w\-\[\]#\.]+)", o)
 meta = {"property": prop, "round": 3, "source": f"fresh sub-agent given only the property record and a scratch worktree of /repo (prompt: tools/SEED_AGENT_PROMPT.txt), change {n} of its delivery",
         "change": next((l for l in notes.splitlines() if l.lower().lstrip('- ').startswith('change')), "")[:600],
         "needs_to_manifest": next((l for l in notes.splitlines() if 'needs to manifest' in l.lower() or 'what it needs' in l.lower()), "")[:600],
         "demo": {"package_dir": demodir, "run": runre},
         "confirmed": res,
-        "check_result_at_seeding_time": {"command": f"tools/try_seed_ov.sh seeded/{newid}/patch.diff {prop}", "exit": int(ex[-1]) if ex else None, "failed_obligations": sorted(set(failed))[:12], "output_tail": o.strip().splitlines()[-8:]}}
+        "check_result_at_seeding_time": {"command": f"CONTRACTS=/repo tools/try_seed_ov.sh seeded/{newid}/patch.diff {prop}  (contracts of hook commit " + subprocess.check_output(["git","-C","/repo","log","--format=%h","-1","--grep=verif-hook"],text=True).strip() + ")", "exit": int(ex[-1]) if ex else None, "failed_obligations": sorted(set(failed))[:12], "output_tail": o.strip().splitlines()[-8:]}}
 json.dump(meta, open(d + "/meta.json", "w"), indent=1)
 print(json.dumps(meta, indent=1)[:3000])
